@@ -46,10 +46,10 @@ func genSeq(level, depthMax, c, n int) []seqRes {
 	return results
 }
 
-func skeletons(depthMax, cMax, nMax int) []seqRes {
+func skeletons(depthMax, cMax, nMax, minTop int) []seqRes {
 	var out []seqRes
 	for _, s := range genSeq(1, depthMax, cMax, nMax) {
-		if s.c >= 1 {
+		if s.c >= 1 && len(s.items) >= minTop {
 			out = append(out, s)
 		}
 	}
@@ -156,6 +156,9 @@ type policy struct {
 	nGM               func(c, n int) int // mount-from-group letters (quick tier only; the thorough tier nests for real)
 	nMM               func(c, n int) int // mount-in-mount letters (quick tier only)
 	nLeaf             func(c, n int) int // fullLeaves = full
+	leaves            []leaf             // leaf letters in enumeration order (nil = leafOrder)
+	minTop            int                // least number of top-level items of a skeleton
+	phasedCfgs        []int              // late-registration family: configurations (indexes into cfgs) under which the two-phase programs run
 }
 
 func quickPolicy() policy {
@@ -244,13 +247,20 @@ type classCount struct {
 // enumerate calls visit(idx, tree) for every tree of the policy, in a fixed order.
 // want(idx) tells whether the tree must be materialised (sharding); the count is returned.
 func enumerate(p policy, want func(idx int64) bool, visit func(idx int64, t *tree)) (total int64, classes []classCount) {
-	sk := skeletons(p.depth, p.cMax, p.nMax)
+	sk := skeletons(p.depth, p.cMax, p.nMax, p.minTop)
+	lo := leafOrder
+	if p.leaves != nil {
+		lo = p.leaves
+	}
 	cc := map[[2]int]*classCount{}
 	var idx int64
 	for _, s := range sk {
 		np, nl := p.nPrefix(s.c, s.n), p.nLeaf(s.c, s.n)
 		ca := containerAlphabet(np, p.nGM(s.c, s.n), p.nMM(s.c, s.n))
-		la := leafOrder[:nl]
+		if nl == 0 && s.n > 0 {
+			continue // class not part of this family
+		}
+		la := lo[:nl]
 		k := [2]int{s.c, s.n}
 		if cc[k] == nil {
 			cc[k] = &classCount{C: s.c, N: s.n, NPrefix: np, NGM: p.nGM(s.c, s.n), NMM: p.nMM(s.c, s.n), NLeaf: nl}
@@ -333,4 +343,119 @@ func instantiateSkel(items []*skel, ca []clabel, la []leaf, cd, ld []int, ci, li
 
 func (c classCount) String() string {
 	return fmt.Sprintf("containers=%d leaves=%d: %d skeletons x labellings (container letters = {mount, group} x %d prefixes + %d mount-from-group pairs + %d mount-in-mount pairs, leaf letters = %d) = %d trees", c.C, c.N, c.Skeletons, c.NPrefix, c.NGM, c.NMM, c.NLeaf, c.Trees)
+}
+
+// ---------------------------------------------------------------------------
+// late-registration family ("program steps after start-up")
+//
+// Trees with >= 2 top-level items and at least one mount; every split of the top-level sequence
+// into a non-empty part registered before start-up and a non-empty part registered afterwards is
+// one two-phase program. The leaf letters add a verb other than GET (POST) to GET/USE/ALL, so that
+// sub-apps with middleware and non-GET routes and late routes of every kind take part.
+
+const fullLateLeaves = 40 // 4 kinds x 5 patterns x 2 behaviours
+
+var lateLeafOrder = func() []leaf {
+	first := []leaf{
+		{kPOST, "/*", false}, {kUSE, "", true}, {kGET, "/x", false}, {kPOST, "/x", false},
+		{kUSE, "/x", true}, {kALL, "/*", true}, {kGET, "/*", false}, {kPOST, "/:id", false},
+		{kUSE, "/*", true}, {kPOST, "", false}, {kALL, "/x", false}, {kGET, "/:id", true},
+		{kPOST, "/x", true}, {kUSE, "/", false},
+	}
+	seen := map[leaf]bool{}
+	out := append([]leaf(nil), first...)
+	for _, l := range first {
+		seen[l] = true
+	}
+	for _, k := range []uint8{kGET, kPOST, kUSE, kALL} {
+		for _, p := range []string{"", "/", "/x", "/:id", "/*"} {
+			for _, nx := range []bool{false, true} {
+				l := leaf{k, p, nx}
+				if !seen[l] {
+					out = append(out, l)
+				}
+			}
+		}
+	}
+	return out
+}()
+
+func quickLatePolicy() policy {
+	return policy{depth: 2, cMax: 2, nMax: 3, minTop: 2, leaves: lateLeafOrder,
+		phasedCfgs: []int{0, len(cfgs) - 1},
+		nPrefix: func(c, n int) int {
+			if c == 1 && n <= 2 {
+				return 6
+			}
+			return 3
+		},
+		nGM: func(c, n int) int {
+			if c == 1 || n == 0 {
+				return 3
+			}
+			return 0
+		},
+		nMM: func(c, n int) int {
+			if c == 1 || n == 0 {
+				return 3
+			}
+			return 0
+		},
+		nLeaf: func(c, n int) int {
+			switch {
+			case c == 1 && n <= 1:
+				return fullLateLeaves
+			case c == 1 && n == 2:
+				return 14
+			case c == 1:
+				return 6
+			case n <= 1:
+				return 16
+			case n == 2:
+				return 5
+			}
+			return 0
+		}}
+}
+
+func thoroughLatePolicy() policy {
+	all := make([]int, len(cfgs))
+	for i := range all {
+		all[i] = i
+	}
+	return policy{depth: 2, cMax: 2, nMax: 3, minTop: 2, leaves: lateLeafOrder,
+		phasedCfgs: all,
+		nPrefix: func(c, n int) int {
+			if c == 1 || n <= 1 {
+				return 6
+			}
+			return 3
+		},
+		nGM: func(c, n int) int {
+			if c == 1 || n <= 2 {
+				return 3
+			}
+			return 0
+		},
+		nMM: func(c, n int) int {
+			if c == 1 || n <= 2 {
+				return 3
+			}
+			return 0
+		},
+		nLeaf: func(c, n int) int {
+			switch {
+			case c == 1 && n <= 1:
+				return fullLateLeaves
+			case c == 1 && n == 2:
+				return 30
+			case c == 1:
+				return 9
+			case n <= 1:
+				return 24
+			case n == 2:
+				return 6
+			}
+			return 3
+		}}
 }
